@@ -466,14 +466,67 @@ func Selector(t *rapid.T) model.Selector {
 	s := model.Selector{Protocol: u8(t, "sel.proto"), StartPort: rapid.Uint16().Draw(t, "sel.sport"), EndPort: rapid.Uint16().Draw(t, "sel.eport")}
 	if rapid.Bool().Draw(t, "sel.v6") {
 		s.Type = 8
-		s.StartAddr = Fill(t, "sel.saddr", 16)
-		s.EndAddr = Fill(t, "sel.eaddr", 16)
+		s.StartAddr = Addr(t, "sel.saddr", 16)
+		s.EndAddr = Addr(t, "sel.eaddr", 16)
 	} else {
 		s.Type = 7
-		s.StartAddr = Fill(t, "sel.saddr", 4)
-		s.EndAddr = Fill(t, "sel.eaddr", 4)
+		s.StartAddr = Addr(t, "sel.saddr", 4)
+		s.EndAddr = Addr(t, "sel.eaddr", 4)
 	}
 	return s
+}
+
+// Addr draws an IPv4 (n = 4) or IPv6 (n = 16) address: arbitrary octets, or one of the addresses that mean something to
+// address-handling code (unspecified, broadcast, loopback, multicast, link-local, IPv4-mapped and IPv4-compatible IPv6).
+func Addr(t *rapid.T, label string, n int) model.Bytes {
+	if n != 4 && n != 16 {
+		return Fill(t, label, n)
+	}
+	k := rapid.IntRange(0, 15).Draw(t, label+".class")
+	if k > 8 {
+		return Fill(t, label, n)
+	}
+	v4 := rapid.SliceOfN(rapid.Byte(), 4, 4).Draw(t, label+".v4")
+	switch k {
+	case 0:
+		v4 = []byte{0, 0, 0, 0}
+	case 1:
+		v4 = []byte{255, 255, 255, 255}
+	case 2:
+		v4 = []byte{127, 0, 0, 1}
+	case 3:
+		v4 = []byte{224, 0, 0, 1}
+	case 4:
+		v4[0] = 10
+	}
+	if n == 4 {
+		return append(model.Bytes(nil), v4...)
+	}
+	out := make(model.Bytes, 16)
+	switch k {
+	case 0: // ::
+	case 1:
+		for i := range out {
+			out[i] = 0xff
+		}
+	case 2:
+		out[15] = 1 // ::1
+	case 3:
+		out[0], out[1], out[15] = 0xff, 0x02, 1 // ff02::1
+	case 4:
+		out[0], out[1] = 0xfe, 0x80 // fe80::/10 + interface id
+		copy(out[12:], v4)
+	case 5, 6:
+		out[10], out[11] = 0xff, 0xff // ::ffff:a.b.c.d (IPv4-mapped)
+		copy(out[12:], v4)
+	case 7:
+		copy(out[12:], v4) // ::a.b.c.d (IPv4-compatible)
+	case 8:
+		out[0], out[1] = 0x00, 0x64
+		out[2], out[3] = 0xff, 0x9b // 64:ff9b::a.b.c.d (NAT64)
+		copy(out[12:], v4)
+	}
+	return out
 }
 
 func CP(t *rapid.T, small bool) *model.CP {
